@@ -237,12 +237,166 @@ def work_import(lang: str) -> Dict[str, Any]:
     return res
 
 
+def work_nesting(n: int) -> Dict[str, Any]:
+    """(3a) the REAL BlockComposition.render / BlockWrapper under E1: n child blocks whose kinds (plain, deferable, a
+    nested composition holding a deferable and a plain block) are symbolic; the rendered lines, read as brackets,
+    must be well nested: every deferable's closing part comes after everything rendered later and closers come in
+    reverse order of their openers (what keeps `#endif` of the include guard last and `}` of extern "C" inside)."""
+    from .. import pysym
+    from ..pysym import ENGINE
+    from ..zc import zc
+
+    res = _res(f"defer-nesting:n={n}")
+    try:
+        z = zc()
+        B = z.mod("bitproto.renderer.block")
+        F = z.mod("bitproto.renderer.formatter")
+
+        class Plain(B.Block):  # type: ignore
+            def __init__(self, tag: str):
+                super().__init__()
+                self.tag = tag
+
+            def render(self) -> None:
+                self.push("L" + self.tag)
+
+        class Deferable(B.BlockDeferable):  # type: ignore
+            def __init__(self, tag: str):
+                super().__init__()
+                self.tag = tag
+
+            def render(self) -> None:
+                self.push("O" + self.tag)
+
+            def defer(self) -> None:
+                self.push("C" + self.tag)
+
+        class Comp(B.BlockComposition):  # type: ignore
+            def __init__(self, children: List[Any]):
+                super().__init__()
+                self.children = children
+
+            def blocks(self) -> List[Any]:
+                return self.children
+
+            def separator(self) -> str:
+                return "\n"
+
+        zk = [z3.Int(f"kind{i}") for i in range(n)]
+        kinds = [pysym.ZInt(v) for v in zk]
+
+        def body() -> Tuple[List[int], str]:
+            ks = []
+            children: List[Any] = []
+            for v in zk:
+                ENGINE.assume(z3.And(v >= 0, v <= 2))
+            for i, k in enumerate(kinds):
+                if k == 0:
+                    ks.append(0)
+                    children.append(Plain(str(i)))
+                elif k == 1:
+                    ks.append(1)
+                    children.append(Deferable(str(i)))
+                else:
+                    ks.append(2)
+                    children.append(Comp([Deferable(f"{i}a"), Plain(f"{i}b")]))
+            top = Comp(children)
+            ctx = B.BlockRenderContext(formatter=None, bound=None)  # nothing here formats
+            top._render_with_ctx(ctx)
+            return ks, str(top)
+
+        for path in ENGINE.explore(body):
+            res["paths"] += 1
+            res["obligations"] += 1
+            if path.exc is not None:
+                raise Inconclusive(f"defer-nesting harness: {type(path.exc).__name__}: {path.exc}")
+            ks, text = path.value
+            lines = [l for l in text.split("\n") if l]
+            stack: List[str] = []
+            ok = True
+            for l in lines:
+                if l[0] == "O":
+                    stack.append(l[1:])
+                elif l[0] == "C":
+                    ok = ok and bool(stack) and stack.pop() == l[1:]
+            ok = ok and not stack and sum(1 for l in lines if l[0] == "O") == sum(1 for k in ks if k) and sum(1 for l in lines if l[0] == "L") == sum(1 for k in ks if k != 1)
+            if not ok:
+                res["violations"].append({"what": f"block composition with child kinds {ks} (0 plain, 1 deferable, 2 nested composition) renders {lines}: deferred closers are not nested inside out, so in a C header `#endif` of the include guard is not last / `}}` of extern \"C\" falls outside it (a second inclusion from C++ then fails)",
+                                          "payload": {"kind": "defer-nesting", "kinds": ks}, "confirmed": True, "info": {"kind": "defer-nesting", "key": "defer-nesting"}})
+            elif len(res["samples"]) < 2:
+                res["samples"].append({"kinds": ks, "lines": lines})
+        for k in ("queries", "unsat", "sat", "unknown"):
+            res[k] += ENGINE.stats.get(k, 0)
+        res["solver_s"] += ENGINE.stats.get("solver_s", 0.0)
+    except Inconclusive as e:
+        res["inconclusive"].append(f"{res['case']}: {type(e).__name__}: {e}")
+    return res
+
+
+def work_cxx(job: Tuple[Any, bool]) -> Dict[str, Any]:
+    """(3b) supporting concrete observation (no symbolic variable: the clause quantifies over schemas only): the header
+    of each family schema, included twice from a C++ unit, is accepted by clang++ and gives every struct the same
+    sizeof / offsetof as in C; the last preprocessor line of the header closes the include guard."""
+    from ..crt import CBuild
+    from ..compile import CompileError
+
+    case, opt = job
+    res = _res(f"cxx:{case.name}{':-O' if opt else ''}")
+    with Scratch() as sc:
+        try:
+            b = CBuild(case, sc.dir, optimize=opt)
+            res["messages"] = len(case.messages)
+            depth = 0
+            closed_at = None
+            hl = b.header.split("\n")
+            for i, l in enumerate(hl):
+                t = l.strip()
+                if re.match(r"#\s*if", t):
+                    depth += 1
+                elif re.match(r"#\s*endif", t):
+                    depth -= 1
+                    if depth == 0 and closed_at is None:
+                        closed_at = i
+            rest = [l for l in hl[(closed_at if closed_at is not None else len(hl)) + 1:] if l.strip()]
+            res["obligations"] += 1
+            if closed_at is None or rest:
+                res["violations"].append({"what": f"{res['case']}: the include guard of {b.main}_bp.h is closed before the end of the file; after it come {rest[:3]}", "payload": {"kind": "schema", "files": case.proto.files(), "main": case.proto.fname(), "lang": "c"},
+                                          "confirmed": True, "info": {"kind": "cxx", "key": "cxx-guard-not-last"}})
+            kc = b.layout_consts(case.messages, cxx=False)
+            try:
+                kx = b.layout_consts(case.messages, cxx=True)
+            except CompileError as e:
+                res["violations"].append({"what": f"{res['case']}: C accepts the generated header, C++ (header included twice) does not: {str(e)[-300:]}", "payload": {"kind": "schema", "files": case.proto.files(), "main": case.proto.fname(), "lang": "c"},
+                                          "confirmed": True, "info": {"kind": "cxx", "key": "cxx-rejects-header"}})
+                return res
+            res["obligations"] += len(kc)
+            res["leaves"] += sum(1 for k in kc if k.startswith("bpv_off"))
+            diff = sorted(k for k in kc if kc[k] != kx.get(k))
+            if diff:
+                # cause: a struct without members has sizeof 0 in GNU C and 1 in C++ (D12); every other difference follows from it or is new
+                empty = {mi for mi, (m, _) in enumerate(case.messages) if kc.get(f"bpv_sizeof_{mi}") == 0}
+                direct = all(k.startswith("bpv_sizeof_") and int(k.rsplit("_", 1)[1]) in empty for k in diff)
+                has_empty = any(v == 0 and k.startswith(("bpv_sizeof_", "bpv_sz_")) for k, v in kc.items())
+                key = "cxx-layout:empty-struct" if (direct or has_empty) else "cxx-layout:other"
+                res["violations"].append({"what": f"{res['case']}: struct layout differs between C and C++: " + ", ".join(f"{k} C={kc[k]} C++={kx.get(k)}" for k in diff[:4]),
+                                          "payload": {"kind": "schema", "files": case.proto.files(), "main": case.proto.fname(), "lang": "c"}, "confirmed": True, "info": {"kind": "cxx", "key": key}})
+            elif len(res["samples"]) < 1:
+                res["samples"].append({"case": res["case"], "layout_constants_equal": len(kc)})
+        except (CompileError, Inconclusive) as e:
+            res["inconclusive"].append(f"{res['case']}: {type(e).__name__}: {str(e)[-300:]}")
+    return res
+
+
 def main() -> int:
     from .agg import run_parts
+    from ..families import f_shape_core, is_extensible_case
+
+    fam = [c for c in f_shape_core() if "noc" not in c.tags]
+    cxx_jobs = [(c, False) for c in fam] + [(c, True) for c in fam if not is_extensible_case(c)]
 
     T = list(templates())
     pairs = [(T[i], T[j]) for i in range(len(T)) for j in range(i, len(T))]
-    parts = [("c-name-templates", work_pair, pairs), ("import-target", work_import, ["c", "py"])]
+    parts = [("c-name-templates", work_pair, pairs), ("import-target", work_import, ["c", "py"]), ("defer-nesting", work_nesting, [1, 2, 3, 4] + ([5] if tier() == "thorough" else [])), ("cxx-header", work_cxx, cxx_jobs)]
     meta = {
         "functions_encoded": FILES,
         "templates": T,
